@@ -1,7 +1,7 @@
 (* C05 -- buffers are bounded by the negotiated capacities and counted exactly.  Statements only. *)
-From Coq Require Import ZArith List Bool.
+From Coq Require Import ZArith NArith List Bool.
 From Verif.Gen Require Import Limits_gen.
-From Verif Require Import Limits LimitsProofs.
+From Verif Require Import Reservoir ReservoirProofs Metrics MetricsProofs ErrTrace SlowSQL Processor Limits C05Check LimitsProofs.
 Import ListNotations.
 Open Scope Z_scope.
 
@@ -14,3 +14,137 @@ Theorem C05_limits_documented :
   FailedEventsAttemptsLimit = 10 /\ FailedMetricAttemptsLimit = 5.
 Proof. exact limits_documented. Qed.
 Print Assumptions C05_limits_documented.
+
+(* Metric table of a harvest (capacity MaxMetrics), built by ANY regrouping of adds, transactions, merges,
+   carried-over failed harvests and rule applications, under EVERY map iteration order: at most 2000 unforced
+   metrics; count = metrics held; a forced metric offered to it is never refused and is in the table afterwards;
+   a refused offer changes nothing but numDropped, happens only at count >= 2000 to an unforced metric with a new
+   key; numDropped grows by exactly the number of refused offers. *)
+Theorem C05_metric_bound : forall b t r, builds b t r -> base_max b = MaxMetrics ->
+  unforced_count t <= 2000 /\
+  tcount t = Z.of_nat (length (entries t)) /\
+  (forall k m, forced m = true ->
+     tdropped (merge_metric t k m) = tdropped t /\
+     get k (merge_metric t k m) = oplus (get k t) (Some (data m))) /\
+  (forall k m, refuses t k m = true ->
+     entries (merge_metric t k m) = entries t /\ tcount (merge_metric t k m) = tcount t /\
+     tdropped (merge_metric t k m) = tdropped t + 1 /\ 2000 <= tcount t /\ forced m = false /\ get k t = None) /\
+  (forall os, tdropped (merge_entries t os) = tdropped t + count_refused t os).
+Proof. exact metric_bound. Qed.
+Print Assumptions C05_metric_bound.
+
+(* The forced flag of a table entry is that of the FIRST contribution to its key: a Forced contribution that
+   lands on an existing unforced entry is aggregated (not refused), but when that entry is later carried over by
+   MergeFailed into a full table the entry is refused as a whole -- the Forced contribution's data goes with it.
+   (Stated as an existence theorem; whether this is within "forced metrics are never refused" is discussed in
+   the report: every OFFER flagged forced is accepted, every ENTRY flagged forced survives every merge.) *)
+Theorem C05_forced_data_in_unforced_entry_can_be_lost :
+  exists b k d r, builds b (exec b) r /\ In (C k true d) (contribs FailedMetricAttemptsLimit b) /\
+                  get k (exec b) = None /\ 0 < tdropped (exec b).
+Proof.
+  exists mixed_b, ([120%N], []), (count_data 1).
+  destruct forced_contribution_in_unforced_entry_witness as (A & _ & B & D & (r & E)).
+  exists r. repeat split; try assumption.
+Qed.
+Print Assumptions C05_forced_data_in_unforced_entry_can_be_lost.
+
+(* What does hold for forced data, at full strength: a key that only ever receives Forced contributions keeps
+   the combination of ALL of them, and its entry is flagged forced, on every build (adds, transactions, merges,
+   carried-over failed harvests, rename rules), under every map iteration order, whatever is refused elsewhere. *)
+Theorem C05_forced_only_keys_keep_everything : forall b t r, builds b t r ->
+  forall k, (forall c, In c (contribs FailedMetricAttemptsLimit b) -> ckey c = k -> cforced c = true) ->
+  get k t = combined (contribs FailedMetricAttemptsLimit b) k /\
+  (forall e, lookup k (entries t) = Some e -> forced e = true).
+Proof. exact forced_keys_keep_all. Qed.
+Print Assumptions C05_forced_only_keys_keep_everything.
+
+(* Every event reservoir of a harvest, for ALL agent settings (uint64, incl. 0 = absent and >= 2^63) and ALL
+   connect replies (members absent, null, 0, negative, above the maximum, >= 2^63, wrongly typed): if the reply is
+   accepted, the capacity NewHarvest gets is non-negative, at most the daemon maximum, at most (for log events) /
+   equal to (other categories) min(maximum, collector limit), and a reservoir of that capacity never holds more,
+   whatever is offered; log events are further capped by a valid agent limit scaled to the report period p (ns):
+   agent * p / 60 s, and the capacity is exactly the minimum of the two. *)
+Theorem C05_event_bound : forall a r e, negotiate a r = Some e ->
+  forall k ops,
+    let cap := harvest_cap e k in
+    let held := Z.of_nat (length (items (run_res (Z.to_nat cap) ops))) in
+    0 <= cap /\ held <= cap /\ cap <= doc_max k /\
+    (forall j, collector_jval r k = Some j ->
+       cap <= capped (doc_max k) j /\ (k <> ELog -> cap = capped (doc_max k) j)) /\
+    (k = ELog ->
+       let agent := int_of_uint64 (a_log a) in
+       let p := ec_period (cfg_of (cfgs e) ELog) in
+       0 <= agent -> 0 <= p ->
+       cap <= agent * p / 60000000000 /\
+       forall j, collector_jval r ELog = Some j -> cap = Z.min (capped 20000 j) (agent * p / 60000000000)).
+Proof. exact event_bound. Qed.
+Print Assumptions C05_event_bound.
+
+(* the same in the collector's units: log limit z, report period ms milliseconds, agent limit per minute *)
+Theorem C05_log_limit_scaled : forall a r e x ms z,
+  negotiate a r = Some e -> in_ehc r = Some x ->
+  r_period x = JInt ms -> 0 < ms < 9223372036854 -> r_log x = JInt z ->
+  a_log a < two63 -> 0 <= a_log a ->
+  harvest_cap e ELog = Z.min (Z.min 20000 z) (a_log a * ms / 60000).
+Proof. exact log_limit_scaled. Qed.
+Print Assumptions C05_log_limit_scaled.
+
+(* a reply whose numbers are all non-negative integers that fit is accepted; a negative limit refuses the reply *)
+Theorem C05_reply_accepted : forall a r, reply_well_formed r = true -> exists e, negotiate a r = Some e.
+Proof. exact well_formed_accepted. Qed.
+Print Assumptions C05_reply_accepted.
+
+Theorem C05_negative_limit_refused : forall a r k z,
+  collector_jval r k = Some (JInt z) -> z < 0 -> negotiate a r = None.
+Proof. exact negative_refused. Qed.
+Print Assumptions C05_negative_limit_refused.
+
+(* What is advertised at connect: report period 60 s and the maxima, lowered to the agent's custom / span / log
+   settings (uint64 on the wire; the conversion to int does no harm: min(max, u) for every u < 2^64). *)
+Theorem C05_advertised : forall a,
+  0 <= a_span a < two64 -> 0 <= a_log a < two64 -> 0 <= a_custom a < two64 ->
+  advertised a = (60000, (100, 10000, Z.min 100000 (a_custom a), Z.min 10000 (a_span a), Z.min 20000 (a_log a))).
+Proof. exact advertised_spec. Qed.
+Print Assumptions C05_advertised.
+
+(* Never more than 250 applications, on every history of the processor. *)
+Theorem C05_app_cap : forall ops, (length (p_apps (fst (run ops))) <= 250)%nat.
+Proof. exact apps_le_limit. Qed.
+Print Assumptions C05_app_cap.
+
+(* Counts: numSeen = everything offered (through merges: the sum; a delivery given up after 10 attempts counts for
+   nothing), held = included = min(capacity, offered), the payload header reports events_seen = numSeen and
+   reservoir_size = capacity; Split partitions the events and the halves' events_seen add up to the original. *)
+Theorem C05_counts_exact : forall K ops,
+  let r := run_res K ops in
+  seen r = seen_total ops /\
+  length (items r) = Nat.min K (length (offered ops)) /\
+  (length (items r) <= K)%nat /\ cap r = K /\
+  model_hdr r = Some (Hdr (seen_total ops) (Z.of_nat K) (Z.of_nat (Nat.min K (length (offered ops))))) /\
+  (Forall adds_only ops -> seen_total ops = Z.of_nat (length ops)) /\
+  (Forall op_counts_ok ops ->
+     Z.of_nat (length (items r)) <= seen r /\
+     seen (fst (split r)) + seen (snd (split r)) = seen r /\
+     items (fst (split r)) ++ items (snd (split r)) = items r /\
+     length (items (fst (split r))) = cap (fst (split r)) /\ length (items (snd (split r))) = cap (snd (split r)) /\
+     failed (fst (split r)) = failed r /\ failed (snd (split r)) = failed r).
+Proof. exact counts_exact. Qed.
+Print Assumptions C05_counts_exact.
+
+Theorem C05_carried_over_counts : forall r o,
+  (carried o = true <-> failed o + 1 <= 10) /\
+  failed (Reservoir.merge_failed r o) = (if carried o then failed o + 1 else failed r) /\
+  (carried o = false -> Reservoir.merge_failed r o = r).
+Proof. exact carried_counts. Qed.
+Print Assumptions C05_carried_over_counts.
+
+(* At most 20 errors, 10 slow SQLs, 1 / 10 / 20 regular / force-persisted / synthetics traces, whatever is offered
+   (and no offer makes the containers of these sizes fail). *)
+Theorem C05_errors_slowsql_traces_bound :
+  (forall es, exists h, run_errors (Z.to_nat MaxErrors) es = Some h /\ (length (e_items h) <= 20)%nat) /\
+  (forall obs, (length (sl_items (run_slow (Z.to_nat MaxSlowSQLs) obs)) <= 10)%nat) /\
+  (forall l, exists ts, run_offers l = Some ts /\
+     (length (ErrTrace.t_items (regular ts)) <= 1)%nat /\ (length (ErrTrace.t_items (force_persisted ts)) <= 10)%nat /\
+     (length (ErrTrace.t_items (synthetics ts)) <= 20)%nat).
+Proof. exact small_containers_bound. Qed.
+Print Assumptions C05_errors_slowsql_traces_bound.
